@@ -976,7 +976,8 @@ example : (processPartial toy3 toy3Mid ⟨0, [5], [0, 2, 0]⟩).2 = .past := by 
 example : (processPartial toy3 toy3Mid ⟨2, [5], [0, 2, 1]⟩).2 = .invalid := by decide          -- signed for round 1, sent as round 2
 example : (processPartial toy3 { toyStart true with group := ⟨0, 2, 3, [(0, "a1"), (1, "a0")], 0⟩, nextRound := 2 }
     ⟨1, [5], [0, 0, 1]⟩).2 = .ownIndex := by decide                                           -- listed under another address, but our share index
-/-- replay of the cached packet: the cache does not change -/
+-- replay of the cached packet: the cache does not change (in either variant: the bytes that would replace the cached ones are the same)
+set_option maxRecDepth 10000 in
 example : (toy3Mid.cache.append ⟨1, [5], [0, 1, 1]⟩).1 = toy3Mid.cache := by decide
 example : toy3Mid.cache.roundLen 1 [5] = some 1 := by decide
 
